@@ -413,6 +413,27 @@ func genTree(r *Rng, o treeOpts) *GenTree {
 			l.Kust["configMapGenerator"] = []interface{}{g}
 			t.NGenerated++
 		}
+		if hasDir(o, "configurations") && r.Chance(35) {
+			// extra field specs through `configurations:` (custom transformer config merged into the defaults)
+			cfg := obj{}
+			fs := func() obj {
+				e := obj{"path": r.Pick([]string{"spec/extra/labels", "spec/free", "metadata/labels", "spec/nested/deep"}), "create": r.Bool()}
+				if r.Bool() {
+					e["kind"] = r.Pick([]string{"MyKind", "Widget"})
+				}
+				return e
+			}
+			for _, k := range []string{"commonLabels", "commonAnnotations", "namePrefix", "namespace", "images", "replicas"} {
+				if r.Chance(40) {
+					cfg[k] = []interface{}{fs()}
+				}
+			}
+			if len(cfg) > 0 {
+				y, _ := syaml.Marshal(cfg)
+				l.Files["kconfig.yaml"] = string(y)
+				l.Kust["configurations"] = []interface{}{"kconfig.yaml"}
+			}
+		}
 		t.Layers = append(t.Layers, l)
 	}
 	return t
